@@ -320,6 +320,9 @@ def _run_conc(sc, ctl, shim, objs, observe):
                     raise
                 except BaseException as e:
                     ctl.log('SpuriousRelRaised', thr=me, o=r['spurious'], exctype=type(e).__name__)
+                ctl.log('SpuriousRelDone', thr=me, o=r['spurious'])
+                if r.get('only_spurious'):
+                    continue
             one_round(me, r)
 
     workers = []
@@ -331,6 +334,9 @@ def _run_conc(sc, ctl, shim, objs, observe):
             # when everybody is done nothing may be left behind: every object can take the lock (and gives it back)
             for ts in workers:
                 ctl.join(ts)
+            # every round has released what it acquired: no object may still say that it holds the lock
+            ctl.log('FinalState', fds=len(shim.fds), locked=[bool(objs[x]._lock_file_fd is not None) for x in sorted(objs)],
+                    tl=[_tl_owner(objs[x]) or 'none' for x in sorted(objs)])
             for o in sorted(objs):
                 try:
                     ok = bool(objs[o].acquire(blocking=False))
